@@ -249,10 +249,20 @@ static std::string dump_copy_once(const fs::path& dbdir, const fs::path& scratch
 
 static std::string dump_copy(const fs::path& dbdir, const fs::path& scratch, int tries = 40) {
   Bypass b;
-  std::string r;
+  std::string r, prev;
+  bool have_prev = false;
   for (int i = 0; i < tries; ++i) {
     r = dump_copy_once(dbdir, scratch);
-    if (r != "unopenable" && r != "copy-failed") return r;
+    if (r != "unopenable" && r != "copy-failed") {
+      // a copy taken while LevelDB's background thread installs a compaction (new table file, manifest edit, old log
+      // removed) can open cleanly and yet miss the data of the log that was being replaced: a live directory is only
+      // believed when two copies in a row read the same (a directory of a dead process, tries == 1, is static)
+      if (tries == 1 || (have_prev && prev == r)) return r;
+      prev = r;
+      have_prev = true;
+    } else {
+      have_prev = false;
+    }
     usleep(5000);
   }
   return r;
